@@ -152,13 +152,7 @@ end
 
 instance : BEq Val := ⟨Val.beq⟩
 
-/-- Python `==` between the primitive values that can occur in `Literal[...]` / enum values:
-    `True == 1`, otherwise structural. -/
-def Val.pyEq : Val → Val → Bool
-  | .bool a, .int b => (if a then 1 else 0) == b
-  | .int a, .bool b => a == (if b then 1 else 0)
-  | a, b => a == b
-
-def Val.pyMem (v : Val) (vs : List Val) : Bool := vs.any (fun w => Val.pyEq w v)
+/-- Exact (class-aware) membership, as `LiteralMarshaller` checks it. -/
+def Val.exactMem (v : Val) (vs : List Val) : Bool := vs.any (fun w => w == v)
 
 end Typelib
